@@ -377,6 +377,7 @@ func (c11) Exec(plan any, c *Ctx) *Violation {
 		return v
 	}
 	for si, st := range p.Steps {
+		clockTick("a step")
 		label := fmt.Sprintf("#%d %s", si, st.Kind)
 		var err error
 		pan := catch(func() {
